@@ -153,7 +153,7 @@ impl TypedProgram {
                     let identifier = format!("{party}::{identifier}");
                     const_sizes.insert(const_name.clone(), *const_sizes.get(&identifier).unwrap());
                 }
-                let n = resolve_const_expr_unsigned(&const_def.value, &consts_unsigned);
+                let n = resolve_const_expr_unsigned(&const_def.value, &consts_unsigned, USIZE_BITS);
                 const_sizes.insert(const_name.clone(), n as usize);
                 consts_unsigned.insert(const_name.clone(), n);
             }
@@ -276,8 +276,13 @@ impl TypedProgram {
                 | ConstExprEnum::Add(_, _)
                 | ConstExprEnum::Sub(_, _) => {
                     if let Type::Unsigned(_) = const_def.ty {
-                        let result =
-                            resolve_const_expr_unsigned(&const_def.value, &consts_unsigned);
+                        let result = resolve_const_expr_unsigned(
+                            &const_def.value,
+                            &consts_unsigned,
+                            const_def
+                                .ty
+                                .size_in_bits_for_defs(self, circuit.const_sizes()),
+                        );
                         let mut bits = Vec::with_capacity(
                             const_def
                                 .ty
@@ -293,7 +298,13 @@ impl TypedProgram {
                         let bits = bits.into_iter().map(|b| b as usize).collect();
                         env.let_in_current_scope(const_name.clone(), bits);
                     } else {
-                        let result = resolve_const_expr_signed(&const_def.value, &consts_signed);
+                        let result = resolve_const_expr_signed(
+                            &const_def.value,
+                            &consts_signed,
+                            const_def
+                                .ty
+                                .size_in_bits_for_defs(self, circuit.const_sizes()),
+                        );
                         let mut bits = Vec::with_capacity(
                             const_def
                                 .ty
@@ -322,7 +333,14 @@ macro_rules! make_resolve_const_function {
         pub(crate) fn $fn_ident(
             ConstExpr(expr, _): &ConstExpr,
             consts_unsigned: &HashMap<String, $const_ty>,
+            bits: usize,
         ) -> $const_ty {
+            // `+` and `-` wrap in the type of the const (`bits` wide), not in the (wider) host
+            // type: keep the `bits` least significant bits (sign-extended for signed types).
+            let wrap = |n: $const_ty| {
+                let unused_bits = <$const_ty>::BITS as usize - bits;
+                (n << unused_bits) >> unused_bits
+            };
             match expr {
                 ConstExprEnum::NumUnsigned(n, _) => *n as $const_ty,
                 ConstExprEnum::NumSigned(n, _) => *n as $const_ty,
@@ -332,14 +350,14 @@ macro_rules! make_resolve_const_function {
                 ConstExprEnum::Max(args) => {
                     let mut result = <$const_ty>::MIN;
                     for arg in args {
-                        result = max(result, $fn_ident(arg, consts_unsigned));
+                        result = max(result, $fn_ident(arg, consts_unsigned, bits));
                     }
                     result
                 }
                 ConstExprEnum::Min(args) => {
                     let mut result = <$const_ty>::MAX;
                     for arg in args {
-                        result = min(result, $fn_ident(arg, consts_unsigned));
+                        result = min(result, $fn_ident(arg, consts_unsigned, bits));
                     }
                     result
                 }
@@ -347,10 +365,14 @@ macro_rules! make_resolve_const_function {
                     // TODO it is probably more sensible to return an error instead of wrapping.
                     // This would require changing this and calling functions to be fallible
                     // issue #227 (robinhundt 07.08.25)
-                    $fn_ident(lhs, consts_unsigned).wrapping_add($fn_ident(rhs, consts_unsigned))
+                    let lhs = $fn_ident(lhs, consts_unsigned, bits);
+                    let rhs = $fn_ident(rhs, consts_unsigned, bits);
+                    wrap(lhs.wrapping_add(rhs))
                 }
                 ConstExprEnum::Sub(lhs, rhs) => {
-                    $fn_ident(lhs, consts_unsigned).wrapping_sub($fn_ident(rhs, consts_unsigned))
+                    let lhs = $fn_ident(lhs, consts_unsigned, bits);
+                    let rhs = $fn_ident(rhs, consts_unsigned, bits);
+                    wrap(lhs.wrapping_sub(rhs))
                 }
                 ConstExprEnum::ConstExprIdent(ident) => *consts_unsigned
                     .get(ident)
@@ -1451,7 +1473,7 @@ impl Type {
             ),
             Type::ArrayConstExpr(elem_ty, size) => (
                 elem_ty.size_in_bits_for_defs(prg, const_sizes),
-                resolve_const_expr_usize(size, const_sizes),
+                resolve_const_expr_usize(size, const_sizes, USIZE_BITS),
             ),
             _ => return None,
         })
@@ -1477,7 +1499,7 @@ impl Type {
             }
             Type::ArrayConstExpr(elem, size_expr) => {
                 elem.size_in_bits_for_defs(prg, const_sizes)
-                    * resolve_const_expr_usize(size_expr, const_sizes)
+                    * resolve_const_expr_usize(size_expr, const_sizes, USIZE_BITS)
             }
             Type::Tuple(values) => {
                 let mut size = 0;
